@@ -1,7 +1,7 @@
 """C01 Simple driver returns a solution of A*X=B  —  R3 (dispatch of ?gssv, ?gstrs), R7 (permutation roles in ?gstrs), R9."""
 from ..facts import Program, loc
 from ..run import Check, AnalysisBroken
-from ..rules import r3_dispatch as r3, r9_sibling, kernels, expand
+from ..rules import r3_dispatch as r3, r9_sibling, kernels, expand, preorder
 from ..rules.effects import PathEffects as Effects
 from ..rules.r3_dispatch import ptr_desc
 from . import _drv
@@ -215,6 +215,9 @@ def run(tier):
             n2 += gstrs_oracle(chk, prog, eff, p, cfgname)
             chk.saw(unit='SRC/%sgssv.c' % p, func='SRC/%sgssv.c:%sgssv' % (p, p))
             chk.saw(unit='SRC/%sgstrs.c' % p, func='SRC/%sgstrs.c:%sgstrs' % (p, p))
+        from ..rules.effects import PathEffects as _PE
+        chk.clause('C01.preorder', 'R3 oracle of sp_preorder')
+        preorder.run(chk, 'C01.preorder', prog, _PE(prog), cfgname)
         kernels.run_basic(chk, 'C01.kern', prog, cfgname, ('solve', 'bmod'), floor_scratch=4 if cfgname != 'cblas' else 20)
         kernels.run_factor(chk, 'C01.kern', prog, cfgname)
         chk.clause('C01.kern.copy', 'growth of factor storage carries the old contents over')
